@@ -189,9 +189,58 @@ def run_problem(pi, a, f, seed, tier, out):
     out.flush()
 
 
+def ie_build(j):
+    from tensora.iteration_graph.identifiable_expression import ast as ie
+
+    if "int" in j:
+        return ie.Integer(int(j["int"]))
+    if "float" in j:
+        return ie.Float(float(j["float"]))
+    if "t" in j:
+        return ie.Tensor(j["t"], j["t"], (), ())
+    if "add" in j:
+        return ie.Add(ie_build(j["add"][0]), ie_build(j["add"][1]))
+    return ie.Multiply(ie_build(j["mul"][0]), ie_build(j["mul"][1]))
+
+
+def ie_json(e):
+    from tensora.iteration_graph.identifiable_expression import ast as ie
+
+    if isinstance(e, ie.Integer):
+        return {"int": e.value}
+    if isinstance(e, ie.Float):
+        return {"float": e.value}
+    if isinstance(e, ie.Tensor):
+        return {"t": e.id}
+    if isinstance(e, ie.Add):
+        return {"add": [ie_json(e.left), ie_json(e.right)]}
+    if isinstance(e, ie.Multiply):
+        return {"mul": [ie_json(e.left), ie_json(e.right)]}
+    raise NotImplementedError(type(e).__name__)
+
+
+def run_exhaust(c):
+    """the real exhaust_tensor applied for every reference in turn, and the terminal's guard"""
+    from tensora.iteration_graph.identifiable_expression import exhaust_tensor
+    from tensora.iteration_graph.identifiable_expression.ast import Integer
+
+    e = ie_build(c["expr"])
+    for r in c["refs"]:
+        e = exhaust_tensor(e, r)
+    return {"result": ie_json(e), "raises": e != Integer(0)}
+
+
 def main():
     req = json.loads(sys.stdin.read())
     out = sys.stdout
+    if req["mode"] == "exhaust":
+        for i, c in enumerate(req["cases"]):
+            rec = run_exhaust(c)
+            rec["id"] = i
+            out.write(json.dumps(rec) + "\n")
+        out.write(json.dumps({"done": True}) + "\n")
+        out.flush()
+        return
     if req["mode"] == "sweep":
         problems = gen_problems(req["seed"], req["tier"])
         k, n = req.get("shard", 0), req.get("nshards", 1)
